@@ -103,7 +103,7 @@ def _kind(o):
     if o[0] == "exc":
         return o[1]
     if o[0] == "ok":
-        return o[1][0]
+        return o[1][0] if isinstance(o[1], tuple) else "text"
     return o[0]
 
 
